@@ -1,4 +1,5 @@
 import EaselModel.Random.Deal64Abs
+import EaselModel.Random.DealF
 import EaselModel.Random.Deal64Thm
 import EaselModel.Random.Deal64Real
 /-! Non-vacuity of `FloatFacts` (C09): every linearly ordered field with a floor whose `exp`/`log` oracles satisfy the three
@@ -89,6 +90,18 @@ theorem fieldFloatFacts (ok : OracleOK F) (B : ℤ) : FloatFacts F B where
     simp only [LE, LT, v_le, v_lt, fz, v_ofInt, v_floorI, I, Int.cast_zero] at *
     exact ⟨Int.floor_nonneg.2 h0, Int.floor_lt.2 h1⟩
 
+end
+
+section
+variable {F : Type} [Field F] [LinearOrder F] [IsStrictOrderedRing F] [FloorRing F] [Oracles F]
+/-- non-vacuity of `DealFact`: exact arithmetic satisfies it for every bound -/
+theorem fieldDealFact (B : ℕ) : DealFact F B := by
+  intro a x ha _
+  simp only [uni32, v_lt, v_mul, v_div, v_ofInt, Int.cast_natCast, Int.cast_ofNat]
+  have hx : ((x.toNat : ℕ) : F) < 4294967296 := by exact_mod_cast UInt32.toNat_lt x
+  have ha' : (0:F) < (a : F) := by exact_mod_cast ha
+  have : ((x.toNat : ℕ) : F) / 4294967296 < 1 := by rw [div_lt_one (by norm_num)]; exact hx
+  exact mul_lt_of_lt_one_right ha' this
 end
 
 /-- `ℝ` with the real `exp`/`log` is a carrier (any bound) -/
